@@ -100,7 +100,8 @@ Problem genProblem(vf::Ctx & c, int D)
   size_t ak = c.s.pick("angle_class", {1, 1, 1, 5});
   double angle = ak == 0 ? 0.0 : ak == 1 ? M_PI / 2 : ak == 2 ? M_PI : c.s.uni("angle", -M_PI, M_PI);
   double tscale = c.s.pick("t_class", {1, 3, 2}) == 0 ? 0.0 : c.s.rlog("t_rel", 1e-3, 10.0);
-  size_t ck = c.s.pick("corr_mode", {2, 2, 2});  // identity, permuted, subset(+permuted)
+  // identity, permuted, subset(+permuted), identity storage except a 3-cycle among interior targets (ends in place)
+  size_t ck = c.s.pick("corr_mode", {2, 2, 2, 1});
   pb.aligned = (ck == 0) && c.s.flag("aligned_overload");
   size_t nk = c.s.pick("noise_class", {3, 2});
   double noiseRel = nk == 0 ? 0.0 : c.s.rlog("noise_rel", 1e-5, 1e-2);
@@ -116,7 +117,13 @@ Problem genProblem(vf::Ctx & c, int D)
   // target storage order
   std::vector<int> perm(pb.n);
   std::iota(perm.begin(), perm.end(), 0);
-  if (ck >= 1) {for (int k = pb.n - 1; k > 0; --k) {std::swap(perm[k], perm[rng.below(k + 1)]);}}
+  if (ck == 3) {
+    if (pb.n >= 5) {
+      int a = 1 + static_cast<int>(rng.below(static_cast<uint64_t>(pb.n - 4))), b = a + 1, cc = pb.n - 2;
+      if (b >= cc) {b = cc - 1;}
+      if (b > a) {int ta = perm[a]; perm[a] = perm[b]; perm[b] = perm[cc]; perm[cc] = ta;}
+    }
+  } else if (ck >= 1) {for (int k = pb.n - 1; k > 0; --k) {std::swap(perm[k], perm[rng.below(k + 1)]);}}
   pb.tgt = MatrixXd(D, pb.n);
   for (int k = 0; k < pb.n; ++k) {
     VectorXd t = pb.Rtrue * pb.src.col(k) + pb.ttrue;
@@ -126,7 +133,9 @@ Problem genProblem(vf::Ctx & c, int D)
   // correspondences
   std::vector<int> used(pb.n);
   std::iota(used.begin(), used.end(), 0);
-  if (ck == 2 && pb.n > 3) {
+  if (ck == 3) {
+    // full-size list in storage order: first pair (0,0), last pair (n-1,n-1)
+  } else if (ck == 2 && pb.n > 3) {
     for (int k = pb.n - 1; k > 0; --k) {std::swap(used[k], used[rng.below(k + 1)]);}
     int m = std::max(3, static_cast<int>(pb.n * rng.uniform(0.4, 0.9)));
     used.resize(std::min(m, pb.n));
@@ -149,6 +158,7 @@ Problem genProblem(vf::Ctx & c, int D)
   if (D == 3 && pb.spread3 < 1e-9 && pb.spread2 >= 0.05) {c.label("coplanar-3D(any)");}
   if (ck == 1) {c.label("permuted");}
   if (ck == 2) {c.label("subset");}
+  if (ck == 3) {c.label("identity-pairing-except-an-interior-cycle");}
   if (pb.aligned) {c.label("aligned-overload");}
   if (pb.precond != 0) {c.label("preconditioned");}
   if (pb.noise > 0) {c.label("noisy");}
